@@ -84,6 +84,12 @@ def parseInt? (s : String) : Option Int :=
 
 abbrev Defs := List (Nat × Sx)
 
+def parseKey (kt : String) : Option Key :=
+  if kt.startsWith "ki" then (parseInt? (dropS kt 2)).map Key.int
+  else if kt.startsWith "k" then (parseCodes? (dropS kt 1)).map Key.sym
+  else if kt.startsWith "K" then (parseCodes? (dropS kt 1)).map Key.str
+  else none
+
 mutual
 partial def parseTerm (defs : Defs) : List String → Option (Sx × Defs × List String)
   | [] => none
@@ -129,10 +135,7 @@ partial def parseKVs : Nat → Defs → List String → Option (List (Key × Sx)
   | 0, defs, r => some ([], defs, r)
   | _, _, [] => none
   | n+1, defs, kt :: r => do
-    let key ← (if kt.startsWith "ki" then (parseInt? (dropS kt 2)).map Key.int
-      else if kt.startsWith "k" then (parseCodes? (dropS kt 1)).map Key.sym
-      else if kt.startsWith "K" then (parseCodes? (dropS kt 1)).map Key.str
-      else none)
+    let key ← parseKey kt
     let (x, d1, r1) ← parseTerm defs r
     let (kvs, d2, r2) ← parseKVs n d1 r1
     pure ((key, x) :: kvs, d2, r2)
